@@ -250,6 +250,9 @@ def check_nprior(ctx):
         v = A.inline_temporaries(s.value, s, H)
         okc = okc and isinstance(v, ast.Call) and (A.call_name(v) or "").endswith("concatenate") and len(v.args) >= 1 and isinstance(v.args[0], ast.Call) and A.call_name(v.args[0]) == "run_worker"
     ctx.check(R, H, "likelihoods concatenated in task order", okc, "marginal_ln_likelihood_helper does not return np.concatenate(results)", key="concat")
+    ws = A.storage_writes(H, lambda e: isinstance(e, ast.Call) and (A.call_name(e) or "").endswith("concatenate"))
+    ctx.check(R, ws[0][0] if ws else H, "the concatenated likelihoods are returned as computed", not ws,
+              (ws[0][1] if ws else "").replace("the input", "the likelihood array") + ": position i no longer holds the likelihood of evaluated sample i", key="concat-inplace")
 
 
 def check_cache(ctx, R="C02-CACHE"):
